@@ -55,8 +55,8 @@ MAX_MODULES = 5
 def phases(tier: str) -> List[Dict[str, Any]]:
     if tier == "quick":
         return [
-            {"name": "nofault", "runs": 176, "heavy": True, "timeout": 240, "wall": 110},
-            {"name": "faults", "runs": 176, "heavy": True, "timeout": 240, "wall": 110},
+            {"name": "nofault", "runs": 128, "heavy": True, "timeout": 240, "wall": 110},
+            {"name": "faults", "runs": 128, "heavy": True, "timeout": 240, "wall": 110},
             {"name": "known", "runs": 2, "explicit": True, "timeout": 240, "wall": 60},
         ]
     return [
